@@ -71,7 +71,7 @@ def fresh_value(I, P, ty, name, depth=0):
             for i, v in enumerate(adt["variants"]):
                 alts[i] = tuple(fresh_value(I, P, fty, f"{name}.{v['name']}.{fname}", depth + 1) for fname, fty in v["fields"])
             return EnumV(ty, None, (), len(adt["variants"]), frozenset({(name + "#variant", 0)}), alts)
-    return TopV(ty, frozenset({(name, 0)}))
+    return TopV(ty, frozenset({(name, 0)}), tag=("fresh", name))
 
 
 # ----------------------------------------------------------------------------------------------
@@ -210,7 +210,13 @@ def m_len(I, st, args, dest_ty, *r):
     if v.kind == "top" and v.tag and v.tag[0] == "strlen":
         lo, hi = v.tag[1]
         return IntV.top("usize", d, lo, hi, exact=True)
-    return IntV.top("usize", d, 0, ISIZE_MAX, exact=True)
+    if v.kind == "top" and v.tag and v.tag[0] == "pushed":
+        # something was pushed on this path: at least one element
+        return IntV.top("usize", d, 1, ISIZE_MAX, exact=False)
+    # every length is attainable only for a container that is an unconstrained input of the analysed unit
+    # (fresh value, input text); the length of a container produced by a callee or modified on the way is unknown
+    free = v.kind == "top" and v.tag is not None and v.tag[0] in ("fresh", "input", "vec", "map")
+    return IntV.top("usize", d, 0, ISIZE_MAX, exact=free)
 
 
 def m_option(payload_ty_of_dest=True):
@@ -469,7 +475,9 @@ def m_mutate_first(I, st, args, dest_ty, *r):
     if a.kind == "ref":
         try:
             cur = I.read_loc(st, a.loc)
-            I.write_loc(st, a.loc, TopV(getattr(cur, "ty", "?"), d | cur.deps(), tag=getattr(cur, "tag", None)))
+            name = (r[3].get("def") or "") if len(r) > 3 and isinstance(r[3], dict) else ""
+            grows = name.endswith("::push") or name.endswith("::insert") or name.endswith("::push_str")
+            I.write_loc(st, a.loc, TopV(getattr(cur, "ty", "?"), d | cur.deps(), tag=("pushed",) if grows else None))
         except Unsupported:
             pass
     if M.int_type(dest_ty):
